@@ -18,6 +18,85 @@ Qed.
 
 Definition lookup0 (k : N) (m : smap) : N := match aget k m with Some v => v | None => 0 end.
 
+Lemma aget_none_notin {V} k (m : list (N * V)) : ~ In k (akeys m) -> aget k m = None.
+Proof.
+  induction m as [|[k0 v0] t IH]; cbn [akeys map fst In aget]; intros N0; [reflexivity|].
+  destruct (k =? k0) eqn:E.
+  - exfalso. apply N0. left. lia.
+  - apply IH. intros I0. apply N0. right. exact I0.
+Qed.
+
+Lemma aget_some_in {V} k (v : V) m : aget k m = Some v -> In k (akeys m).
+Proof.
+  induction m as [|[k0 v0] t IH]; cbn [akeys map fst In aget]; [discriminate|].
+  destruct (k =? k0) eqn:E; [left; lia|]. intros E2. right. apply IH, E2.
+Qed.
+
+Lemma nmem_ndel a x l : a <> x -> nmem a (ndel x l) = nmem a l.
+Proof.
+  intros Nx. induction l as [|y t IH]; cbn [ndel nmem]; [reflexivity|].
+  destruct (x =? y) eqn:E; cbn [nmem]; rewrite IH; [|reflexivity].
+  assert (a =? y = false) as -> by lia. reflexivity.
+Qed.
+
+(* updateTrie on a dirty-storage map with distinct keys: per-slot lookup *)
+Lemma update_trie_get : forall d root k, NoDup (akeys d) ->
+  aget k (update_trie_with d root) =
+  match aget k d with
+  | Some v => if v =? 0 then None else Some v
+  | None => aget k root
+  end.
+Proof.
+  unfold update_trie_with.
+  induction d as [|[k0 v0] t IH]; intros root k ND; [reflexivity|].
+  cbn [fold_left fst snd]. cbn [akeys map fst] in ND.
+  inversion ND as [|? ? Nin ND']; subst.
+  rewrite IH by exact ND'. cbn [aget].
+  destruct (k =? k0) eqn:E.
+  - assert (k = k0) as -> by lia. rewrite (aget_none_notin k0 t Nin).
+    destruct (v0 =? 0); [rewrite aget_adel | rewrite aget_aset]; rewrite N.eqb_refl; reflexivity.
+  - destruct (aget k t); [reflexivity|].
+    destruct (v0 =? 0); [rewrite aget_adel | rewrite aget_aset]; rewrite E; reflexivity.
+Qed.
+
+Lemma lookup0_update d root k : NoDup (akeys d) ->
+  lookup0 k (update_trie_with d root) = match aget k d with Some v => v | None => lookup0 k root end.
+Proof.
+  intros ND. unfold lookup0. rewrite update_trie_get by exact ND.
+  destruct (aget k d) as [v|]; [|reflexivity].
+  destruct (v =? 0) eqn:E; [lia|reflexivity].
+Qed.
+
+Lemma bget_app h m m' : bget h (m ++ m') = match bget h m with Some c => Some c | None => bget h m' end.
+Proof.
+  induction m as [|[k v] t IH]; cbn [app bget]; [reflexivity|].
+  destruct (bytes_eqb h k); [reflexivity|apply IH].
+Qed.
+Lemma bget_bset_mono h c k v m : bget h m = Some c -> bget h (bset k v m) = Some c.
+Proof. unfold bset. destruct (bget k m); [auto|]. intros E. rewrite bget_app, E. reflexivity. Qed.
+Lemma bget_bset_same k v m : bget k (bset k v m) = match bget k m with Some c => Some c | None => Some v end.
+Proof.
+  unfold bset. destruct (bget k m) eqn:E; [exact E|]. rewrite bget_app, E. cbn [bget].
+  rewrite bytes_eqb_refl. reflexivity.
+Qed.
+Lemma bget_bset_inv h c k v m : bget h (bset k v m) = Some c -> bget h m = Some c \/ (h = k /\ c = v).
+Proof.
+  unfold bset. destruct (bget k m); [left; assumption|]. rewrite bget_app.
+  destruct (bget h m); [left; assumption|]. cbn [bget].
+  destruct (bytes_eqb_spec h k); [|discriminate]. intros [= <-]. right. split; [assumption|reflexivity].
+Qed.
+
+(* nil code and empty code are the same to every caller (len, copy, hash) *)
+Definition norm_code (c : option bytes) : bytes := match c with Some x => x | None => [] end.
+Definition same_account (x y : option aview) : Prop :=
+  match x, y with
+  | None, None => True
+  | Some v, Some w =>
+    v_nonce v = v_nonce w /\ v_balance v = v_balance w /\ v_codehash v = v_codehash w /\
+    v_suicided v = v_suicided w /\ norm_code (v_code v) = norm_code (v_code w)
+  | _, _ => False
+  end.
+
 Section Copy.
 Variable H : bytes -> bytes.
 
@@ -106,11 +185,280 @@ Proof.
     destruct (get_obj c a) as [o|], (get_obj s a) as [p|]; cbn [orel] in R; try contradiction; [|reflexivity].
     destruct R as (R1 & R2 & R3 & R4 & R5 & R6).
     unfold obj_code. rewrite B. unfold code_of in R4. fold (empty_code_hash H) in R4.
-    rewrite R1, R2, R3, R5. f_equal. f_equal. rewrite <- R3. exact R4.
+    rewrite R4, R1, R2, R3, R5. reflexivity.
   - intros a k. specialize (R a). unfold get_state.
     destruct (get_obj c a) as [o|], (get_obj s a) as [p|]; cbn [orel] in R; try contradiction; [|reflexivity].
     apply R.
   - intros th. unfold get_logs. rewrite D. reflexivity.
 Qed.
+
+(* ------------------------------------------------------------------ *)
+(* Commit, then re-open the committed root                              *)
+Section Reopen.
+Hypothesis H_inj : forall x y, H x = H y -> x = y.
+
+Definition codes_ok (codes : list (bytes * bytes)) : Prop := forall h c, bget h codes = Some c -> h = H c.
+Definition codes_le (c1 c2 : list (bytes * bytes)) : Prop := forall h c, bget h c1 = Some c -> bget h c2 = Some c.
+
+(* the code held by the object is what the code store has under its hash *)
+Definition code_settled (codes : list (bytes * bytes)) (o : obj) : Prop :=
+  forall c, o_code o = Some c -> o_ch o = H c /\ bget (o_ch o) codes = Some c.
+
+(* live object lo reads exactly like trie leaf tl *)
+Definition settled_at (lo : option obj) (tl : option acct) (codes : list (bytes * bytes)) : Prop :=
+  forall o, lo = Some o ->
+    (o_deleted o = true /\ tl = None) \/
+    (o_deleted o = false /\ exists ac, tl = Some ac /\
+       o_nonce o = a_nonce ac /\ o_bal o = a_bal ac /\ o_ch o = a_ch ac /\
+       o_suicided o = false /\
+       (forall k, obj_get_state o k = lookup0 k (a_root ac)) /\
+       code_settled codes o).
+Definition settled (a : N) (st : state) : Prop :=
+  settled_at (aget a (st_live st)) (aget a (st_trie st)) (st_codes st).
+
+Lemma settled_at_mono lo tl c1 c2 : settled_at lo tl c1 -> codes_le c1 c2 -> settled_at lo tl c2.
+Proof.
+  intros S LE o E. destruct (S o E) as [L|(D & ac & T & N1 & N2 & N3 & N4 & N5 & N6)]; [left; exact L|].
+  right. split; [exact D|]. exists ac. do 6 (split; [assumption|]).
+  intros c Hc. destruct (N6 c Hc) as [X Y]. split; [exact X|apply LE, Y].
+Qed.
+
+Lemma update_root_state o k : st_coherent o -> NoDup (akeys (o_dirtyst o)) ->
+  obj_get_state (obj_update_root o) k = lookup0 k (update_trie_with (o_dirtyst o) (o_root o)).
+Proof.
+  intros C ND. destruct (C k) as [C1 C2].
+  unfold obj_get_state, obj_update_root, o_with_root; cbn [o_cached o_root].
+  fold (lookup0 k (update_trie_with (o_dirtyst o) (o_root o))).
+  rewrite lookup0_update by exact ND.
+  destruct (aget k (o_dirtyst o)) as [v|] eqn:E.
+  - rewrite (C1 v eq_refl). reflexivity.
+  - destruct (aget k (o_cached o)) as [v|] eqn:E2; [|reflexivity]. apply (C2 v eq_refl eq_refl).
+Qed.
+
+(* what one iteration of the Commit loop does *)
+Lemma commit_one_cases b st x o st' :
+  commit_one H b st x = Ok st' -> aget x (st_live st) = Some o ->
+  st_dirty st' = ndel x (st_dirty st) /\
+  ( (o_suicided o || (nmem x (st_dirty st) && b && obj_empty H o) = true /\
+     st_live st' = aset x (o_with_deleted true o) (st_live st) /\
+     st_trie st' = adel x (st_trie st) /\ st_codes st' = st_codes st)
+  \/ (o_suicided o || (nmem x (st_dirty st) && b && obj_empty H o) = false /\
+      nmem x (st_dirty st) = true /\
+      exists o1 codes1,
+        st_live st' = aset x (obj_update_root o1) (st_live st) /\
+        st_trie st' = aset x (mkAcct (o_nonce o) (o_bal o) (o_root (obj_update_root o1)) (o_ch o)) (st_trie st) /\
+        st_codes st' = codes1 /\
+        ((o1 = o /\ codes1 = st_codes st /\ (forall c, o_code o = Some c -> o_dirtycode o = false)) \/
+         (exists c, o_code o = Some c /\ o_dirtycode o = true /\
+                    o1 = o_with_dirtycode false o /\ codes1 = bset (o_ch o) c (st_codes st))))
+  \/ (o_suicided o || (nmem x (st_dirty st) && b && obj_empty H o) = false /\
+      nmem x (st_dirty st) = false /\
+      st_live st' = st_live st /\ st_trie st' = st_trie st /\ st_codes st' = st_codes st) ).
+Proof.
+  intros E L. unfold commit_one in E. rewrite L in E.
+  destruct (o_suicided o || (nmem x (st_dirty st) && b && obj_empty H o)) eqn:C1.
+  - cbn [rbind] in E. injection E as <-. split; [reflexivity|]. left. repeat split.
+  - destruct (nmem x (st_dirty st)) eqn:Ed.
+    + destruct (o_code o) as [c|] eqn:Ec; [destruct (o_dirtycode o) eqn:Edc|];
+        unfold update_state_object in E;
+        cbn [o_bal obj_update_root o_with_root o_with_dirtycode] in E;
+        destruct (o_bal o <? 0)%Z; cbn [rbind] in E; try discriminate;
+        injection E as <-; (split; [reflexivity|]); right; left; (split; [reflexivity|]); (split; [reflexivity|]).
+      * exists (o_with_dirtycode false o), (bset (o_ch o) c (st_codes st)).
+        repeat split. right. exists c. repeat split.
+      * exists o, (st_codes st). repeat split. left. repeat split.
+      * exists o, (st_codes st). repeat split. left. repeat split. intros c' [=].
+    + cbn [rbind] in E. injection E as <-. split; [reflexivity|]. right. right. repeat split.
+Qed.
+
+Section Fold.
+Variables (b : bool) (s : state).
+Hypothesis NU : no_unmarked s.
+Hypothesis CO : forall a o, aget a (st_live s) = Some o -> st_coherent o.
+Hypothesis ND : forall a o, aget a (st_live s) = Some o -> NoDup (akeys (o_dirtyst o)).
+Hypothesis DEL : forall a o, aget a (st_live s) = Some o -> o_deleted o = true ->
+  nmem a (st_dirty s) = true -> o_suicided o = true \/ (b = true /\ obj_empty H o = true).
+Hypothesis CS : codes_ok (st_codes s).
+Hypothesis OC : forall a o c, aget a (st_live s) = Some o -> o_code o = Some c ->
+  o_ch o = H c /\ (o_dirtycode o = true \/ bget (o_ch o) (st_codes s) = Some c).
+
+(* address a has not been visited yet by the loop *)
+Definition pending (a : N) (st : state) : Prop :=
+  aget a (st_live st) = aget a (st_live s) /\ aget a (st_trie st) = aget a (st_trie s) /\
+  nmem a (st_dirty st) = nmem a (st_dirty s).
+Definition Ginv (st : state) : Prop := codes_ok (st_codes st) /\ codes_le (st_codes s) (st_codes st).
+
+Lemma step_other st x st' a :
+  commit_one H b st x = Ok st' -> a <> x ->
+  aget a (st_live st') = aget a (st_live st) /\ aget a (st_trie st') = aget a (st_trie st) /\
+  nmem a (st_dirty st') = nmem a (st_dirty st).
+Proof.
+  intros E Na. assert (Ea : a =? x = false) by lia.
+  destruct (aget x (st_live st)) as [o|] eqn:L.
+  - destruct (commit_one_cases _ _ _ _ _ E L)
+      as (D & [(_ & A & B & C)|[(_ & _ & o1 & c1 & A & B & C & _)|(_ & _ & A & B & C)]]);
+      rewrite D, A, B; rewrite ?aget_aset, ?aget_adel, ?Ea, nmem_ndel by exact Na; repeat split.
+  - unfold commit_one in E. rewrite L in E. injection E as <-. repeat split.
+Qed.
+
+Lemma step_codes st x st' :
+  commit_one H b st x = Ok st' ->
+  codes_le (st_codes st) (st_codes st') /\
+  (codes_ok (st_codes st) ->
+   (forall o c, aget x (st_live st) = Some o -> o_code o = Some c -> o_ch o = H c) ->
+   codes_ok (st_codes st')).
+Proof.
+  intros E. destruct (aget x (st_live st)) as [o|] eqn:L.
+  - destruct (commit_one_cases _ _ _ _ _ E L)
+      as (D & [(_ & A & B & C)|[(_ & _ & o1 & c1 & A & B & C & Cs)|(_ & _ & A & B & C)]]);
+      rewrite C; try (split; [intros h c Hc; exact Hc|intros OK _; exact OK]).
+    destruct Cs as [(_ & -> & _)|(c & Ec & _ & _ & ->)]; [split; [intros h c Hc; exact Hc|intros OK _; exact OK]|].
+    split.
+    + intros h c0 Hc. apply bget_bset_mono, Hc.
+    + intros OK Hh h c0 Hc. apply bget_bset_inv in Hc. destruct Hc as [Hc|[-> ->]]; [apply OK, Hc|].
+      apply (Hh o c eq_refl Ec).
+  - unfold commit_one in E. rewrite L in E. injection E as <-.
+    split; [intros h c Hc; exact Hc|intros OK _; exact OK].
+Qed.
+
+Lemma step_self st x st' o :
+  commit_one H b st x = Ok st' -> Ginv st -> pending x st -> aget x (st_live s) = Some o ->
+  settled x st'.
+Proof.
+  intros E [GO GL] (P1 & P2 & P3) L.
+  assert (L' : aget x (st_live st) = Some o) by (rewrite P1; exact L).
+  destruct (commit_one_cases _ _ _ _ _ E L')
+    as (D & [(C1 & A & B & C)|[(C1 & Ed & o1 & c1 & A & B & C & Cs)|(C1 & Ed & A & B & C)]]);
+    unfold settled; rewrite A, B, C.
+  - rewrite aget_aset, aget_adel, N.eqb_refl. intros o' [= <-]. left. split; reflexivity.
+  - rewrite !aget_aset, N.eqb_refl. intros o' [= <-].
+    rewrite Ed in C1.
+    assert (Dl : o_deleted o = false).
+    { destruct (o_deleted o) eqn:Dl; [|reflexivity]. rewrite P3 in Ed.
+      destruct (DEL x o L Dl Ed) as [S|[Bt Em]].
+      - rewrite S in C1. cbn [orb] in C1. discriminate.
+      - rewrite Bt, Em in C1. destruct (o_suicided o); cbn [orb andb] in C1; discriminate. }
+    assert (Su : o_suicided o = false).
+    { destruct (o_suicided o); [cbn [orb] in C1; discriminate|reflexivity]. }
+    right.
+    destruct Cs as [(-> & -> & Hdc)|(c & Ec & Edc & -> & ->)].
+    + split; [exact Dl|]. eexists. split; [reflexivity|]. cbn [a_nonce a_bal a_ch a_root].
+      do 4 (split; [assumption || reflexivity|]). split.
+      * intros k. apply update_root_state; [exact (CO x o L)|exact (ND x o L)].
+      * intros c' Ec'. change (o_code o = Some c') in Ec'.
+        destruct (OC x o c' L Ec') as [Hh [Hd|Hb]].
+        -- rewrite (Hdc c' Ec') in Hd. discriminate.
+        -- split; [exact Hh|]. apply GL. exact Hb.
+    + split; [exact Dl|]. eexists. split; [reflexivity|]. cbn [a_nonce a_bal a_ch a_root].
+      do 4 (split; [assumption || reflexivity|]). split.
+      * intros k. apply update_root_state; [exact (CO x o L)|exact (ND x o L)].
+      * intros c' Ec'. change (o_code o = Some c') in Ec'.
+        destruct (OC x o c' L Ec') as [Hh _]. split; [exact Hh|].
+        change (bget (o_ch o) (bset (o_ch o) c (st_codes st)) = Some c').
+        rewrite Ec in Ec'. injection Ec' as <-.
+        rewrite bget_bset_same. destruct (bget (o_ch o) (st_codes st)) as [c0|] eqn:E0; [|reflexivity].
+        f_equal. apply H_inj. rewrite <- Hh. symmetry. apply GO, E0.
+  - rewrite P3 in Ed. rewrite L'. intros o' [= <-]. rewrite P2.
+    destruct (NU x o L Ed) as [[Dl Tr]|(Dl & ac & Tr & N1 & N2 & N3 & N4 & N5 & N6)]; [left; split; assumption|].
+    right. split; [exact Dl|]. exists ac. do 6 (split; [assumption|]).
+    intros c Ec. destruct (OC x o c L Ec) as [Hh _]. split; [exact Hh|]. apply GL.
+    unfold obj_code in N6. rewrite Ec in N6. cbn [obj_of_acct new_object o_code o_ch] in N6.
+    destruct (bytes_eqb (a_ch ac) (empty_code_hash H)); [discriminate|].
+    rewrite N3. symmetry. exact N6.
+Qed.
+
+Lemma settled_step_other st x st' a :
+  commit_one H b st x = Ok st' -> a <> x -> settled a st -> settled a st'.
+Proof.
+  intros E Na S. unfold settled. destruct (step_other _ _ _ a E Na) as (A & B & _). rewrite A, B.
+  eapply settled_at_mono; [exact S|]. apply (step_codes _ _ _ E).
+Qed.
+
+Lemma commit_fold : forall order st st',
+  NoDup order -> fold_res (commit_one H b) order st = Ok st' -> Ginv st ->
+  (forall a, In a order -> pending a st) -> (forall a, ~ In a order -> settled a st) ->
+  forall a, settled a st'.
+Proof.
+  induction order as [|x t IH]; intros st st' NDo E Gs P S; cbn [fold_res] in E.
+  - injection E as <-. intros a. apply S. intros [].
+  - destruct (commit_one H b st x) as [st1|] eqn:E1; cbn [rbind] in E; [|discriminate].
+    inversion NDo as [|? ? Nin NDt]; subst.
+    apply (IH st1 st' NDt E).
+    + destruct (step_codes _ _ _ E1) as [LE OK]. destruct Gs as [GO GL]. split.
+      * apply OK; [exact GO|]. intros o c Lx Ec.
+        destruct (P x (or_introl eq_refl)) as (P1 & _). rewrite P1 in Lx. apply (OC x o c Lx Ec).
+      * intros h c Hc. apply LE, GL, Hc.
+    + intros a' Ia. assert (Ne : a' <> x) by (intros ->; contradiction).
+      destruct (step_other _ _ _ a' E1 Ne) as (A & B & C).
+      destruct (P a' (or_intror Ia)) as (P1 & P2 & P3). unfold pending. rewrite A, B, C. auto.
+    + intros a' Nia. destruct (N.eq_dec a' x) as [->|Ne].
+      * destruct (aget x (st_live s)) as [o|] eqn:L.
+        -- apply (step_self st x st1 o E1 Gs); [|exact L]. apply P. left. reflexivity.
+        -- destruct (P x (or_introl eq_refl)) as (P1 & _). rewrite L in P1.
+           unfold settled. unfold commit_one in E1. rewrite P1 in E1. injection E1 as <-.
+           rewrite P1. intros o [=].
+      * apply (settled_step_other st x st1 a' E1 Ne). apply S. intros [->|I']; [apply Ne; reflexivity|contradiction].
+Qed.
+
+End Fold.
+
+(* Hypotheses beyond no_unmarked / st_coherent / NoDup of the live keys:
+   * the dirtyStorage list of every live object has distinct keys (it is built
+     by aset, so this always holds for reachable states): updateTrie applies the
+     bindings in list order, GetState reads the first one;
+   * a live object that is already `deleted` and still in the dirty set must be
+     deleted again by this Commit (suicided, or b and empty).  Without it the
+     statement is false: Finalise(true) deletes an empty object, a following
+     Commit(false) takes the `isDirty` branch and writes the deleted object back
+     into the trie, so the re-opened state has an account that s' does not show;
+   * the code-store hypotheses (collision freedom is the Section hypothesis H_inj). *)
+Theorem commit_reopen : forall b s s' r,
+  commit H b s = Ok (s', r) ->
+  no_unmarked s ->
+  (forall a o, aget a (st_live s) = Some o -> st_coherent o) ->
+  (forall a o, aget a (st_live s) = Some o -> NoDup (akeys (o_dirtyst o))) ->
+  NoDup (akeys (st_live s)) ->
+  (forall a o, aget a (st_live s) = Some o -> o_deleted o = true -> nmem a (st_dirty s) = true ->
+               o_suicided o = true \/ (b = true /\ obj_empty H o = true)) ->
+  (forall h c, bget h (st_codes s) = Some c -> h = H c) ->
+  (forall a o c, aget a (st_live s) = Some o -> o_code o = Some c ->
+                 o_ch o = H c /\ (o_dirtycode o = true \/ bget (o_ch o) (st_codes s) = Some c)) ->
+  let re := new_state r (st_codes s') in
+  forall a, same_account (account_view H re a) (account_view H s' a) /\
+            forall k, get_state re a k = get_state s' a k.
+Proof.
+  intros b s s' r E NU CO ND NDl DEL CS OC re a. subst re.
+  unfold commit, commit_with in E.
+  destruct (fold_res (commit_one H b) (akeys (st_live s)) s) as [st'|] eqn:EF; cbn [rbind] in E; [|discriminate].
+  injection E as <- <-.
+  assert (S : settled a st').
+  { apply (commit_fold b s NU CO ND DEL OC (akeys (st_live s)) s st' NDl EF).
+    - split; [exact CS|]. intros h c Hc. exact Hc.
+    - intros a' _. repeat split.
+    - intros a' Nia. unfold settled. rewrite (aget_none_notin a' (st_live s) Nia). intros o [=]. }
+  unfold settled in S.
+  unfold account_view, get_state, get_obj, load_obj, new_state.
+  cbn [st_live st_trie st_codes clear_journal_and_refund with_refund with_revs with_journal aget].
+  destruct (aget a (st_live st')) as [o|] eqn:L.
+  - destruct (S o eq_refl) as [[Dl Tr]|(Dl & ac & Tr & N1 & N2 & N3 & N4 & N5 & N6)]; rewrite Dl, Tr.
+    + split; [exact I|reflexivity].
+    + cbn [same_account v_nonce v_balance v_codehash v_suicided v_code new_object o_nonce o_bal o_ch o_suicided].
+      split.
+      * do 4 (split; [congruence|]).
+        unfold obj_code.
+        cbn [new_object o_code o_ch st_codes clear_journal_and_refund with_refund with_revs with_journal].
+        destruct (o_code o) as [c|] eqn:Ec.
+        -- destruct (N6 c Ec) as [Hh Hb]. rewrite <- N3.
+           destruct (bytes_eqb_spec (o_ch o) (empty_code_hash H)) as [Ee|_].
+           ++ cbn [norm_code]. apply H_inj. rewrite <- Hh. symmetry. exact Ee.
+           ++ rewrite Hb. reflexivity.
+        -- rewrite N3. reflexivity.
+      * intros k. rewrite N5. unfold obj_get_state, new_object. cbn [o_cached o_root aget]. reflexivity.
+  - destruct (aget a (st_trie st')) as [ac|]; [|split; [exact I|reflexivity]].
+    split; [|reflexivity]. cbn [same_account v_nonce v_balance v_codehash v_suicided v_code].
+    do 4 (split; [reflexivity|]). reflexivity.
+Qed.
+
+End Reopen.
 
 End Copy.
